@@ -207,7 +207,7 @@ CHECKS = {
              "parameter kinds, samples ~20 (thorough: ~250) long behaviours, and every one is replayed by h_life; Trace_Life accepts a replay only if each step is an enabled Life action, each decryption returns Life's plaintext, gate outputs are one function of (key, gate, inputs) across generated and re-imported key objects and across runs, "
              "key exports are byte-identical, and the windows are clean. A third pass runs the small configurations, the sequences and a polynomial-routine scenario (monomial products at exponents 0, 1, N-1, N, N+1, 2N-1, Karatsuba, naive and FFT products) with every 1-64 KiB block ending on an inaccessible page.",
         note="PARTIAL: decides heap out-of-bounds writes within 64 bytes of a block, leaks, double frees, uses of uninitialised/freed heap memory that change a result or an export, and - in a third pass where every block of 1 to 64 KiB ends on an inaccessible page - any access (reads included) past the end of a coefficient or sample array. NOT decided: out-of-bounds reads before a block or past the end of smaller blocks, stack accesses, accesses far outside a block, "
-             "anything inside hand-written assembly that stays in mapped memory. The ASan/UBSan/Valgrind configurations named by the property are a different technique and are not run. Found and repaired through this family of checks: D2, D3, D4. Recorded as a known finding: D8 (a Lagrange polynomial used after its creating thread exited reads that thread's destroyed FFT processor; decided by identity in Trace_Threads!PolyUse).",
+             "anything inside hand-written assembly that stays in mapped memory. The ASan/UBSan/Valgrind configurations named by the property are a different technique and are not run. Found and repaired through this family of checks: D2, D3, D4, D8 (a Lagrange polynomial used after its creating thread exited read that thread's destroyed FFT processor; decided by identity in Trace_Threads!PolyUse; fix 0f4e6fe).",
         design="§6 C16, §7"),
     "C20": dict(
         category="other",
